@@ -60,6 +60,10 @@ def gen_obj(rng):
         obj['units'] = 's'
         obj['period'] = rng.choice([[500, 'ms'], [250, 'ms'], [100, 'ms']])
         obj['reps'] = max(obj['reps'], 2)
+    if rng.random() < 0.2:
+        # named assertions that the output never refers to, next to the output assertion (1..3 of them: whatever a
+        # specification keeps in sets or dictionaries keyed by their names is iterated in hash order)
+        obj['unref'] = rng.randint(1, 3)
     if kind == 'dt_off' and rng.random() < 0.25:
         obj['tuples'] = True
     if kind == 'ct_on' and rng.random() < 0.6:
@@ -83,6 +87,12 @@ def obj_sd(obj):
     f = lang.from_jsonable(obj['formula'])
     sd = {'vars': sorted(obj['data'])}
     u = obj.get('units')
+    if obj.get('unref') and not u:
+        v0 = sd['vars'][0]
+        names = ['watchdog', 'aux_ok', 'zz_limit'][:obj['unref']]
+        sd['subspecs'] = ['%s = (%s %s %d);' % (nm, v0, ('>=', '<=', '>')[i], i) for i, nm in enumerate(names)]
+        sd['text'] = 'out = %s;' % lang.to_text(f)
+        return sd
     if not u:
         sd['text'] = lang.to_text(f)
         return sd
